@@ -6316,6 +6316,12 @@ mz_bool mz_zip_writer_add_mem_ex_v2(mz_zip_archive * pZip, const char * pArchive
 		return mz_zip_set_error(pZip, MZ_ZIP_ALLOC_FAILED);
 	}
 
+	if ((!(level_and_flags & MZ_ZIP_FLAG_COMPRESSED_DATA)) && (buf_size <= 3)) {
+		/* Data this small is always stored -- decide that before the method is recorded in the headers */
+		level = 0;
+		store_data_uncompressed = MZ_TRUE;
+	}
+
 	if ((!store_data_uncompressed) && (buf_size)) {
 		if (NULL == (pComp = (tdefl_compressor *)pZip->m_pAlloc(pZip->m_pAlloc_opaque, 1, sizeof(tdefl_compressor)))) {
 			return mz_zip_set_error(pZip, MZ_ZIP_ALLOC_FAILED);
@@ -6406,11 +6412,6 @@ mz_bool mz_zip_writer_add_mem_ex_v2(mz_zip_archive * pZip, const char * pArchive
 	if (!(level_and_flags & MZ_ZIP_FLAG_COMPRESSED_DATA)) {
 		uncomp_crc32 = (mz_uint32)mz_crc32(MZ_CRC32_INIT, (const mz_uint8 *)pBuf, buf_size);
 		uncomp_size = buf_size;
-
-		if (uncomp_size <= 3) {
-			level = 0;
-			store_data_uncompressed = MZ_TRUE;
-		}
 	}
 
 	if (store_data_uncompressed) {
